@@ -95,6 +95,12 @@ class Harness:
       self.seed += 1
     self.cohort_of = tab
     self.log = None
+    self.trigger = None      # leg R: predicate(kind, fields) naming the spec crash point to realise
+    self.cur_round = 0
+
+  def maybe_crash(self, kind, **fields):
+    if self.trigger is not None and self.trigger(kind, fields):
+      raise faults.SimCrash()
 
   # ---- pieces handed to fedjax ----
   def make_sampler(self):
@@ -104,11 +110,13 @@ class Harness:
     class LoggingSampler(base):
 
       def sample(self):
+        h.maybe_crash('Sample', r=int(self._round_num))
         out = super().sample()
         h.log.append({'e': 'Sample', 'c': h.cohort_of.get(tuple(c[0] for c in out), -1)})
         return out
 
       def set_round_num(self, round_num):
+        h.maybe_crash('SetRound', r=int(round_num))
         super().set_round_num(round_num)
         h.log.append({'e': 'SetRound', 'r': int(round_num)})
 
@@ -123,6 +131,8 @@ class Harness:
 
     def apply(state, clients):
       c = h.cohort_of.get(tuple(cid for cid, _, _ in clients), -1)
+      h.maybe_crash('Apply', r=len(state['hist']) + 1)
+      h.cur_round = len(state['hist']) + 1
       new = {'hist': np.concatenate([np.asarray(state['hist']), np.array([c], np.int32)]),
              'params': state['params'] + jnp.float32(c)}
       h.log.append({'e': 'Apply', 'st': [int(x) for x in new['hist']]})
@@ -137,6 +147,7 @@ class Harness:
     class Final(fe.EvaluationFn):
 
       def __call__(self, state, round_num):
+        h.maybe_crash('FinalEval')
         h.log.append({'e': 'FinalEval', 'st': [int(x) for x in state['hist']], 'round': int(round_num)})
         return collections.OrderedDict(state='S' + '.'.join(str(int(x)) for x in state['hist']) + 'E',
                                        round=f'R{int(round_num)}E')
@@ -144,6 +155,7 @@ class Harness:
     class Periodic(fe.EvaluationFn):
 
       def __call__(self, state, round_num):
+        h.maybe_crash('PeriodicEval', r=int(round_num))
         h.log.append({'e': 'PeriodicEval', 'st': [int(x) for x in state['hist']], 'round': int(round_num)})
         return {}
 
@@ -203,16 +215,18 @@ class Harness:
         f.write(data)
 
   # ---- one incarnation ----
-  def incarnation(self, crash_at=None, partial=None):
+  def incarnation(self, crash_at=None, partial=None, trigger=None):
     """Runs the real experiment call once from the current directory; returns (events, n_effects, kinds, outcome)."""
     nr, f, k, e = self.cfg
     self.log = []
+    self.trigger = trigger
+    self.cur_round = 0
     cfg = self.fe.FederatedExperimentConfig(root_dir=self.root, num_rounds=nr, checkpoint_frequency=f,
                                             num_checkpoints_to_keep=k, eval_frequency=e)
     per, fin = self.make_evals()
     alg = self.make_algorithm()
     ip = faults.Interposer(self.root, self.snapshot, self.log, crash_at=crash_at, partial=partial,
-                           name_of=self.name_of)
+                           name_of=self.name_of, crash_pred=trigger)
     outcome = 'return'
     with ip:
       try:
@@ -374,6 +388,117 @@ def leg_t(ctx):
   return total
 
 
+def make_trigger(h, point):
+  """Predicate realising a NAMED crash point of the specification (pc, round, status of the file being written)."""
+  pc, rnd = point['pc'], point['rnd']
+  tsv_writes = [0]
+  ck_writes = [0]
+
+  def is_tsv(f):
+    return isinstance(f.get('name'), dict) and f['name'].get('k') == 'tsv'
+
+  def trig(kind, f):
+    if kind == 'Write' and is_tsv(f):
+      tsv_writes[0] += 1
+    if kind == 'Write' and not is_tsv(f):
+      ck_writes[0] += 1
+    if kind == 'Open' and not is_tsv(f):
+      ck_writes[0] = 0
+    if pc in ('load', 'seat'):
+      return kind == 'SetRound'
+    if pc == 'sample':
+      return kind == 'Sample' and f['r'] == rnd
+    if pc == 'apply':
+      return kind == 'Apply' and f['r'] == rnd
+    if pc == 'save_open':
+      return kind == 'Open' and not is_tsv(f) and h.cur_round == rnd
+    if pc == 'save_write':
+      if kind == 'Write' and not is_tsv(f) and h.cur_round == rnd and ck_writes[0] == 1:
+        return ('partial', 0.5) if point['wstatus'] == 'prefix' else True
+      return False
+    if pc == 'save_close':
+      return kind == 'Close' and not is_tsv(f) and h.cur_round == rnd
+    if pc == 'save_rename':
+      return kind == 'Rename' and h.cur_round == rnd
+    if pc == 'del':
+      # the spec may sit in "del" before any, between, or after all deletions: the expected directory tells which
+      if h.cur_round != rnd:
+        return False
+      if kind == 'Remove':
+        vis = sorted(int(m.group(1)) for m in (CKPT_RE.match(b) for b in os.listdir(h.root)) if m)
+        return vis == sorted(point['visible'])
+      return kind in ('PeriodicEval', 'FinalEval') or (kind == 'Sample' and f['r'] == rnd + 1)
+    if pc == 'saved':
+      return h.cur_round == rnd and (kind in ('PeriodicEval', 'FinalEval') or (kind == 'Sample' and f['r'] == rnd + 1))
+    if pc == 'eval':
+      return kind == 'PeriodicEval' and f['r'] == rnd
+    if pc == 'endround':
+      return h.cur_round == rnd and (kind == 'FinalEval' or (kind == 'Sample' and f['r'] == rnd + 1))
+    if pc == 'final':
+      return kind == 'FinalEval'
+    if pc == 'final_open':
+      return kind == 'Open' and is_tsv(f)
+    if pc == 'final_write':
+      return kind == 'Write' and is_tsv(f) and tsv_writes[0] == (1 if point['tsvstatus'] == 'empty' else 2)
+    if pc == 'return':
+      return kind == 'Close' and is_tsv(f)
+    return False
+
+  return trig
+
+
+def leg_r(ctx):
+  """Leg R: crash schedules generated by TLC (named spec crash points) are realised on the real code."""
+  cfgs = [(3, 1, 1, 0), (3, 2, 2, 1)] if not ctx.thorough else [(3, 1, 1, 0), (3, 2, 2, 1), (4, 1, 2, 2), (4, 3, 1, 0)]
+  total = 0
+  for cfg in cfgs:
+    nr, f, k, e = cfg
+    consts = dict(NumRounds=nr, CkptFreq=f, Keep=k, EvalFreq=e, MaxCrashes=2, HasFinalEval=True, NumDecoys=0)
+    consts.update(TOGGLES_OK)
+    r = ctx.tlc('ExperimentGen', name='ExperimentGen_%d_%d_%d_%d' % cfg, constants=consts, init='GInit', next_='GNext', invariants=['EmitSchedule'],
+                workers=1, coverage=False)
+    scheds = r.json
+    ctx.rng.shuffle(scheds)
+    if not ctx.thorough:
+      scheds = scheds[:250]
+    root = os.path.join(ctx.scratch, 'gen_%d_%d_%d_%d' % cfg)
+    h = Harness(root, *cfg, seed=ctx.seed)
+    for s in scheds:
+      h.restore({})
+      problem = None
+      for ci, point in enumerate(s['sched']):
+        _, _, _, outcome = h.incarnation(trigger=make_trigger(h, point))
+        if outcome != 'crash':
+          problem = ('schedule-not-realisable', f'crash #{ci + 1} at spec point {point} was never reached (outcome {outcome})')
+          break
+        snap = h.snapshot()
+        vis = sorted(n['r'] for n, fl in snap if n['k'] == 'ckpt')
+        bad = [n['r'] for n, fl in snap if n['k'] == 'ckpt' and fl['status'] != 'complete']
+        if vis != sorted(point['visible']) or bad:
+          problem = ('directory-after-crash', f'after crash #{ci + 1} at spec point {point} the directory shows checkpoints {vis} (incomplete: {bad}), '
+                                              f'the specification expects {sorted(point["visible"])}')
+          break
+      if problem is None:
+        ev, _, _, outcome = h.incarnation()
+        ret = [e_ for e_ in ev if e_['e'] == 'Return']
+        snap = dict((json.dumps(n, sort_keys=True), fl) for n, fl in h.snapshot())
+        tsv = snap.get(json.dumps({'k': 'tsv', 'r': 0, 's': ''}, sort_keys=True))
+        vis = sorted(json.loads(n)['r'] for n in snap if json.loads(n)['k'] == 'ckpt')
+        if outcome != 'return' or not ret or ret[0]['st'] != list(s['result']):
+          problem = ('final-result', f'final incarnation: outcome {outcome}, returned {ret[0]["st"] if ret else None}, the specification expects {s["result"]}')
+        elif vis != sorted(s['visible']):
+          problem = ('final-directory', f'checkpoints at the end {vis}, the specification expects {sorted(s["visible"])}')
+        elif tsv is None or tsv['status'] != 'complete' or tsv['content'] != list(s['tsv']['content']) or tsv['round'] != s['tsv']['round']:
+          problem = ('final-eval-output', f'final evaluation output {tsv}, the specification expects {s["tsv"]}')
+      total += 1
+      ctx.case(key=('R', cfg, repr(s['sched'])), nontrivial=len(s['sched']) >= 1)
+      if problem:
+        ctx.violation(f'replay:{problem[0]}', f'{problem[1]}; cfg(num_rounds,ckpt_freq,keep,eval_freq)={cfg} schedule={s["sched"]}', replay={'cfg': cfg, 'schedule': s})
+    shutil.rmtree(root, ignore_errors=True)
+  ctx.trace_ok(total)
+  ctx.leg('R', schedules_realised=total)
+
+
 def binding_control(ctx):
   """Negative control for the binding: a corrupted field in an otherwise accepted trace must be rejected."""
   cfg = (3, 1, 2, 0)
@@ -407,5 +532,6 @@ def run(ctx):
       'quantifies over round-deterministic algorithms)',
   ]
   leg_m(ctx)
+  leg_r(ctx)
   leg_t(ctx)
   binding_control(ctx)
